@@ -612,14 +612,7 @@ pub fn scripts_wire(tier: &str, seed: u64) -> Vec<Script> {
             }
         }
     }
-    if tier != "thorough" {
-        // keep the quick tier short: a seeded half of the matrix
-        let mut k = 0;
-        v.retain(|_| {
-            k += 1;
-            (k + seed) % 2 == 0
-        });
-    }
+    let _ = (tier, seed);
     v
 }
 
@@ -658,7 +651,7 @@ pub fn dispatch(cmd: &str, a: &std::collections::HashMap<String, String>) -> Opt
     match cmd {
         "auth1" => Some(batch_l1(&out, &tier, seed)),
         "auth2" => Some(batch_l2(&out, seed, scripts_auth2(&tier, seed), "auth2", 1)),
-        "wire-sessions" => Some(batch_l2(&out, seed, scripts_wire(&tier, seed), "wire-sessions", if tier == "thorough" { 4 } else { 1 })),
+        "wire-sessions" => Some(batch_l2(&out, seed, scripts_wire(&tier, seed), "wire-sessions", if tier == "thorough" { 8 } else { 2 })),
         _ => None,
     }
 }
